@@ -477,6 +477,9 @@ def run(chk):
     chk.cov["traces_validated_against_impl"] = n1 + n2 + n3
     chk.cov["disagreements_checked"] = d1 + d2 + d3
     lim.finish()
+    # the line/directive parser model (C13_spans_valid is a theorem about it): astdump correspondence incl. every span
+    import ext_asmparser
+    ext_asmparser.run_streams(chk, chk.tier == "quick")
 
 
 def replay(chk, rep):
